@@ -73,6 +73,10 @@ def gen_history(seed, max_edits=8, features=None, inproc_only=False, deps_ops=Tr
             delivery = rng.choice(["restart", "restart", "inproc-def", "inproc-module"])
         if inproc_only and delivery == "restart":
             delivery = "inproc-def"
+        if e["kind"] == "inith":
+            if inproc_only:
+                continue
+            delivery = "restart"      # the package's __init__.py is rewritten and imported by the next process
         steps.append({"op": "edit", "edit": e, "delivery": delivery, "n": counter})
         cur, _ = apply_with_discipline(cur, e, counter)
         if deps_ops and rng.random() < (0.3 if discipline else 0.8):
@@ -101,6 +105,8 @@ def apply_with_discipline(prog, e, n):
             tn |= set(progen.global_users(p, u[1]))
         if u[0] == "b":
             tn |= set(progen.builtin_users(p, u[1]))
+        if u[0] == "i":
+            tn |= set(progen.init_users(p))
     for eid in progen.explicit_bumps(p, tn, n):
         p["nodes"][eid]["explicit"] = "v%d" % (n + 1)
         touched.add(("n", eid))
